@@ -223,6 +223,7 @@ EXTRA_ENGINES = [
     ("EvenSplit", ["C11"], "TLA+ model of track / n as coded (equal consecutive blocks, remainder dropped: CoversAll refuted); every (size, n) replayed"),
     ("AStar", ["C06"], "TLA+ state machine of the A* routing mode as coded (heuristic added into the propagated weights; ReportsALength refuted); every "
                        "(graph, source, target) outcome set replayed"),
+    ("CellOps", ["C19"], "TLA+ definitions of co_count_distinct and co_dominant as coded (first among ties); every short list replayed"),
     ("BoundingBox", ["C19"], "TLA+ model of the mutable Bbox over shared corner objects; every operation history replayed"),
     ("TrackEdit", ["C01"], "TLA+ model of the feature table under edits of the observation list, partial effects of failing calls included; every "
                            "history replayed"),
